@@ -11,7 +11,7 @@
    abstraction as BlobWrite.tla -- never read back from the implementation.
 
    TRACE_FILE: JSON array of [L, decl, ev |-> <<...>>]; every event carries obs = [verified, file, completed, closed, pending].
-     Open(w, ok, guarded, same)  Write(w, n, good, openb, pendb)  Step  Job  Close  Delete  SetLength(len)  Quiesce *)
+     CloseW(w)  Open(w, ok, guarded, same)  Write(w, n, good, openb, pendb)  Step  Job  Close  Delete  SetLength(len)  Quiesce *)
 EXTENDS Naturals, Sequences, FiniteSets, TLC, Json, IOUtils, TLCExt
 VARIABLES tid, l,
           decl, sofar, allgood, alive,      \* per writer: what it was fed while its handle was open and pending
@@ -66,7 +66,11 @@ TrDelete == /\ Consume("Delete") /\ Observe /\ disturbed' = TRUE /\ deletes' = d
 TrSetLength == /\ Consume("SetLength") /\ Observe
                /\ decl' = IF decl = 0 THEN E.len ELSE decl        \* set_length only takes effect while the length is unknown
                /\ UNCHANGED <<sofar, allgood, alive, delivered, opened, guardedw, deletes, disturbed, superseded>>
-TNext == TrOpen \/ TrWrite \/ TrStep \/ TrClose \/ TrDelete \/ TrSetLength
+\* CloseW(w): the connection of writer w ends (the peer hung up after sending what it had): its handle is closed by its own end
+TrCloseW == /\ Consume("CloseW") /\ Observe /\ superseded' = superseded \cup {E.w}
+            /\ alive' = [alive EXCEPT ![E.w] = FALSE]
+            /\ UNCHANGED <<decl, sofar, allgood, delivered, opened, guardedw, deletes, disturbed>>
+TNext == TrOpen \/ TrWrite \/ TrStep \/ TrClose \/ TrDelete \/ TrSetLength \/ TrCloseW
 TSpec == TInit /\ [][TNext]_tvars
 
 \* ------------------------------------------------------------------ the property on real observations
